@@ -46,7 +46,7 @@ LogB == /\ Ev("b_ctl") /\ BCtl([t |-> T.t, s |-> T.s, v |-> T.v])
         /\ UNCHANGED <<pendA, seenCred, seenCredC>>
 \* --- logged: B receives a frame: it must be the head of the ordered output channel
 LogRecv == /\ Ev("b_recv") /\ out # <<>>
-           /\ Head(out).t = T.t /\ Head(out).s = T.s /\ Head(out).n = T.n /\ Head(out).es = T.es
+           /\ HeadPiece.t = T.t /\ HeadPiece.s = T.s /\ HeadPiece.n = T.n /\ HeadPiece.es = T.es
            /\ WriterSend
            /\ UNCHANGED <<pendA, seenCred, seenCredC>>
 \* --- logged: B receives a connection-level frame the sender issued
